@@ -17,6 +17,8 @@ pub struct Digest {
     pub text: Option<String>,
     /// rendered error of an Err result
     pub err: Option<String>,
+    /// returned define table of an Ok result: name -> body text (None: no value / no body)
+    pub defines: Option<std::collections::BTreeMap<String, Option<String>>>,
 }
 
 impl Digest {
@@ -28,6 +30,7 @@ impl Digest {
             full,
             text: None,
             err: None,
+            defines: None,
         }
     }
     pub fn short(&self) -> String {
@@ -103,6 +106,13 @@ pub fn digest_err(e: &Error) -> Digest {
     d
 }
 
+pub fn defines_map(defines: &Defines) -> std::collections::BTreeMap<String, Option<String>> {
+    defines
+        .iter()
+        .map(|(k, v)| (k.clone(), v.as_ref().and_then(|d| d.text.as_ref().map(|t| t.text.clone()))))
+        .collect()
+}
+
 fn write_defines(out: &mut String, defines: &Defines) {
     let mut names: Vec<&String> = defines.keys().collect();
     names.sort();
@@ -169,6 +179,7 @@ pub fn digest_pp(r: &Result<(PreprocessedText, Defines), Error>) -> Digest {
             write_defines(&mut out, defines);
             let mut d = Digest::from_full("Ok", out, &accept);
             d.text = Some(text.text().to_string());
+            d.defines = Some(defines_map(defines));
             d
         }
     }
@@ -230,6 +241,7 @@ pub fn digest_tree(r: &Result<(SyntaxTree, Defines), Error>) -> Digest {
             write_defines(&mut out, defines);
             let mut d = Digest::from_full("Ok", out, &accept);
             d.text = Some(text.to_string());
+            d.defines = Some(defines_map(defines));
             d
         }
     }
